@@ -36,7 +36,11 @@ type c18Case struct {
 	// Prev, if set, is a text decoded just before S through the same ReadBuf, from the
 	// same memory: what the decoder learned from it must not colour the result for S.
 	Prev []byte `json:"prev,omitempty"`
+	// Local, if set, is the process's local time zone while the case runs (TZ).
+	Local string `json:"local,omitempty"`
 }
+
+var c18Zones = []string{"Europe/London", "America/New_York", "Australia/Lord_Howe", "Asia/Kolkata", "Pacific/Chatham", "America/St_Johns"}
 
 func init() { registerReplay("c18", func(c c18Case) error { _, _, err := runC18(c); return err }) }
 
@@ -138,6 +142,18 @@ func sameTime(a, b time.Time) bool {
 }
 
 func runC18(c c18Case) (bool, []string, error) {
+	if c.Local != "" {
+		loc, err := time.LoadLocation(c.Local)
+		if err != nil {
+			return false, []string{"zone_database_missing"}, nil
+		}
+		old := time.Local
+		time.Local = loc
+		defer func() { time.Local = old }()
+		c.Local = ""
+		nt, labels, err := runC18(c)
+		return nt, append(labels, "local_zone_with_dst"), err
+	}
 	if c.ViaLibrary {
 		tm, err := time.Parse(time.RFC3339Nano, string(c.S))
 		if err != nil {
@@ -236,6 +252,9 @@ func grammarTimestamp(t *rapid.T) string {
 			sep = ","
 		}
 		n := gen.UniformRange(t, "fracDigits", 1, 12)
+		if gen.Uniform(t, "longFrac", 8) == 0 {
+			n = gen.UniformRange(t, "fracDigitsLong", 13, 90) // the grammar puts no limit on the digits
+		}
 		f := ""
 		for i := 0; i < n; i++ {
 			f += string(rune('0' + gen.Uniform(t, "fd", 10)))
@@ -274,6 +293,27 @@ func libraryFormat(tm time.Time) ([]byte, error) {
 
 func drawC18(t *rapid.T) c18Case {
 	c := drawC18One(t)
+	if gen.Uniform(t, "localZone", 4) == 0 {
+		// the process runs in a zone with daylight saving; half of the time the text
+		// carries one of that zone's own offsets (winter or summer)
+		c.Local = c18Zones[gen.Uniform(t, "zoneName", len(c18Zones))]
+		if loc, err := time.LoadLocation(c.Local); err == nil && rapid.Bool().Draw(t, "ownOffset") {
+			month := []time.Month{time.January, time.July}[gen.Uniform(t, "season", 2)]
+			_, off := time.Date(2021, month, 15, 12, 0, 0, 0, loc).Zone()
+			sign := byte('+')
+			if off < 0 {
+				sign, off = '-', -off
+			}
+			suffix := fmt.Sprintf("%c%02d:%02d", sign, off/3600, off%3600/60)
+			n := len(c.S)
+			switch {
+			case n >= 20 && c.S[n-1] == 'Z':
+				c.S = append(append([]byte(nil), c.S[:n-1]...), suffix...)
+			case n >= 25 && (c.S[n-6] == '+' || c.S[n-6] == '-'):
+				c.S = append(append([]byte(nil), c.S[:n-6]...), suffix...)
+			}
+		}
+	}
 	if gen.Uniform(t, "prev", 3) == 0 {
 		c.Prev = drawC18One(t).S
 		if gen.Uniform(t, "prevSameShape", 2) == 0 && len(c.S) >= 10 {
@@ -289,8 +329,32 @@ func drawC18(t *rapid.T) c18Case {
 	return c
 }
 
+// c18Fields: offset and width of the numeric fields of YYYY-MM-DDTHH:MM:SS
+var c18Fields = [][2]int{{0, 4}, {5, 2}, {8, 2}, {11, 2}, {14, 2}, {17, 2}}
+
 func drawC18One(t *rapid.T) c18Case {
-	switch gen.Uniform(t, "cls", 11) {
+	switch gen.Uniform(t, "cls", 12) {
+	case 11: // one numeric field (or a zone field) set to a value at or just past the end of its range
+		b := []byte(grammarTimestamp(t))
+		vals := []string{"00", "01", "12", "13", "23", "24", "28", "29", "30", "31", "32", "59", "60", "61", "99"}
+		k := gen.Uniform(t, "field", len(c18Fields)+2)
+		v := vals[gen.Uniform(t, "fieldVal", len(vals))]
+		switch {
+		case k == 0:
+			copy(b[0:4], rapid.SampledFrom([]string{"0000", "0001", "9999", "0004", "0100", "0400", "1900", "2000", "2100"}).Draw(t, "yearVal"))
+		case k < len(c18Fields):
+			copy(b[c18Fields[k][0]:], v)
+		default:
+			// the zone's hours or minutes, if the text has a numeric zone
+			if n := len(b); n >= 6 && (b[n-6] == '+' || b[n-6] == '-') {
+				if k == len(c18Fields) {
+					copy(b[n-5:], v)
+				} else {
+					copy(b[n-2:], v)
+				}
+			}
+		}
+		return c18Case{S: b}
 	case 10: // formatted by the LIBRARY's writer: must be RFC 3339 for the same instant, and read back
 		var v specTime
 		tm := v.draw(t)
